@@ -79,8 +79,8 @@ def sensitivity(argv):
                   f"{lines[1].strip()[:110] if len(lines) > 1 else (out.strip().splitlines() or [''])[-1][:110]}", flush=True)
         finally:
             shutil.rmtree(root, ignore_errors=True)
-    kernel.write_json(os.path.join(kernel.out_root() if hasattr(kernel, "out_root") else VERIF_ROOT, "selftest_sensitivity.json"),
-                      {"rows": rows, "missed": bad})
+    if not only:
+        kernel.write_json(os.path.join(VERIF_ROOT, "selftest_sensitivity.json"), {"rows": rows, "missed": bad})
     print(f"sensitivity: {len(rows) - bad}/{len(rows)} mutants detected")
     return 0 if bad == 0 else 1
 
@@ -123,7 +123,8 @@ def seeded(argv):
             print(f"{'DETECTED' if ok else 'MISSED  '} {meta['property']} {sid:<44} by={','.join(detected_by) or '-'} {first}", flush=True)
         finally:
             shutil.rmtree(root, ignore_errors=True)
-    kernel.write_json(os.path.join(VERIF_ROOT, "selftest_seeded.json"), {"rows": rows, "missed": bad})
+    if not only:  # a filtered run must not overwrite the record of the full one
+        kernel.write_json(os.path.join(VERIF_ROOT, "selftest_seeded.json"), {"rows": rows, "missed": bad})
     print(f"seeded: {len(rows) - bad}/{len(rows)} kept changes detected")
     return 0 if bad == 0 else 1
 
